@@ -51,6 +51,7 @@ class JetEval:
         self.sign_conds = []  # sexp of conditions that needed a sign decision
         self.orders = {}      # nc symbol name -> th-order
         self.divisions = []   # denominators met in this world
+        self.far_switches = []  # switches on quantities that do not vanish at th = 0
         self.notes = []
 
     # ------------------------------------------------------------------ helpers
@@ -297,6 +298,15 @@ class JetEval:
                 eps_side, q, thr = "rhs", a, b
             elif (a_eps and not b_eps) or (a_num and b_th and sp.limit(b, TH, 0) == 0):
                 eps_side, q, thr = "lhs", b, a
+            if eps_side and isinstance(q, sp.Expr) and q.has(TH) and sp.limit(q, TH, 0) != 0:
+                # the compared quantity does not vanish with the rotation: a switch located elsewhere (e.g. 1+cos(th)
+                # near pi).  Around th -> 0 it is decided; it is examined separately around its own zero.
+                q_small_when = (op in ("<", "<=")) if eps_side == "rhs" else (op in (">", ">="))
+                key = sexp(n)
+                self.far_switches.append((n.get("ln") if isinstance(n, dict) else None, q, q_small_when, thr, key))
+                if key in self.world.signs:
+                    return self.world.signs[key]
+                return not q_small_when      # at th -> 0 the quantity is O(1) > threshold
             if eps_side:
                 # quantity q compared with a threshold built from eps (eps, eps_sqrt, ...): q small  <=>  (q < thr)
                 q_small_when = (op in ("<", "<=")) if eps_side == "rhs" else (op in (">", ">="))
